@@ -85,11 +85,14 @@ structure St where
   nums : List Int        -- chanNumbers: the channel number of each channel (fixed once the source runs)
   running : Bool         -- the source runs (a CoreLoop serves requests and blocks)
   blocked : List Nat     -- base paths below which no directory can be made (e.g. below a regular file)
+  lens : Int × Int       -- configured record length (samples, presamples): server status = every processor
+  startLens : Int × Int  -- ghost: the record length when the last START was accepted (the fixed length of its LJH 2.2 / OFF files)
 deriving Repr, DecidableEq
 
-def St.init (proj : List Bool) (pre : List Run) (nums : List Int) (blocked : List Nat := []) : St :=
+def St.init (proj : List Bool) (pre : List Run) (nums : List Int) (blocked : List Nat := [])
+    (lens : Int × Int := (8, 3)) : St :=
   { ws := { active := false, paused := false, base := none, pat := none, l22 := false, off := false, l3 := false },
-    chans := proj.map Chan.new, dirs := pre, files := [], nums, running := true, blocked }
+    chans := proj.map Chan.new, dirs := pre, files := [], nums, running := true, blocked, lens, startLens := lens }
 
 /-! ### Request strings -/
 
@@ -193,6 +196,7 @@ inductive Op where
       -- `map`: number of pixels of the map the server holds when the request arrives (`none`: no map)
   | pub (counts : List Nat)
   | proj (ch : Nat)
+  | lens (nsamp npre : Int)   -- the RPC `SourceControl.ConfigurePulseLengths`
   | srcEnd       -- the source ends BY ITSELF (the producer reports an error, CoreLoop returns)
   | srcStart     -- the source is started (again): real `Start`, fresh processors
 deriving Repr, DecidableEq
@@ -235,7 +239,7 @@ def startReq (s : St) (path : Option Nat) (l22 off l3 : Bool) (map : Option Nat)
   | none => (s, true)
   | some r =>
     ({ s with chans := s.chans.map (·.start r l22 off l3),
-              dirs := r :: s.dirs,
+              dirs := r :: s.dirs, startLens := s.lens,
               ws := { active := true, paused := false, base := some r.pid, pat := some r, l22, off, l3 } }, false)
 
 /-- a `WriteControl` request that reaches the running source -/
@@ -260,6 +264,15 @@ def step (s : St) : Op → St × Bool
     let r := pubAll 0 s.chans counts s.files
     ({ s with chans := r.1, files := r.2 }, false)
   | .proj ch => ({ s with chans := setProj s.chans ch }, false)
+  | .lens n p =>
+    -- `SourceControl.ConfigurePulseLengths`, then `AnySource.ConfigurePulseLengths` inside the loop
+    if !s.running then (s, true)                       -- no source is active
+    else if n ≤ 0 ∨ p ≤ 0 then (s, true)               -- non-positive values
+    else if (n, p) = s.lens then (s, false)            -- no change requested
+    else if s.ws.active then (s, true)                 -- "stop writing before changing record lengths" (paused or not)
+    else if p < 3 ∨ n < p + 1 then (s, true)           -- invalid lengths
+    else ({ s with lens := (n, p),                     -- every processor drops its projectors
+                   chans := s.chans.map fun c => { c with proj := false } }, false)
   | .srcEnd =>
     -- CoreLoop's deferred clean-up: `if ds.WritingIsActive() { ds.WriteControl(STOP) }`
     if s.running && s.ws.active then
@@ -323,6 +336,7 @@ structure OSt where
   elig : List Bool     -- per channel: had projectors at the last accepted START
   proj : List Bool     -- per channel: has projectors now
   dirs : List Run      -- run directories known to exist
+  lens : Int × Int     -- configured record length (a change of it drops every channel's projectors)
 deriving Repr
 
 inductive Bad where
@@ -371,7 +385,7 @@ def chkStep (o : OSt) (op : Op) (err : Bool) (after : Obs) : Except Bad OSt :=
         | some run =>
           if o.dirs.contains run ∨ some run.pid ≠ pathOr path o.prev.ws.base
           then .error .startNotFresh
-          else .ok { prev := after, elig := o.proj, proj := o.proj, dirs := run :: o.dirs }
+          else .ok { o with prev := after, elig := o.proj, dirs := run :: o.dirs }
       | .stop => if after.fds = 0 then .ok { o with prev := after } else .error .stopLeftOpen
       | _ => .ok { o with prev := after }
   | .pub counts =>
@@ -382,6 +396,12 @@ def chkStep (o : OSt) (op : Op) (err : Bool) (after : Obs) : Except Bad OSt :=
   | .proj ch =>
     if sameFiles o.prev.files after.files then .ok { o with prev := after, proj := setTrue o.proj ch }
     else .error .requestTouchedFiles
+  | .lens n p =>
+    if !sameFiles o.prev.files after.files then .error .requestTouchedFiles
+    else if err then
+      if after.ws = o.prev.ws then .ok { o with prev := after } else .error .rejectedChanged
+    else if (n, p) = o.lens then .ok { o with prev := after }
+    else .ok { o with prev := after, proj := o.proj.map fun _ => false, lens := (n, p) }
   | .srcEnd =>
     if sameFiles o.prev.files after.files then .ok { o with prev := after }
     else .error .requestTouchedFiles
@@ -398,8 +418,8 @@ def chkRun : OSt → List Op → List (Bool × Obs) → Except Bad OSt
     | .ok o' => chkRun o' ops rest
     | .error b => .error b
 
-def OSt.init (proj : List Bool) (pre : List Run) : OSt :=
-  { prev := obs (St.init proj pre []), elig := proj.map fun _ => false, proj, dirs := pre }
+def OSt.init (proj : List Bool) (pre : List Run) (lens : Int × Int := (8, 3)) : OSt :=
+  { prev := obs (St.init proj pre []), elig := proj.map fun _ => false, proj, dirs := pre, lens }
 
 /-! ### Driver -/
 
@@ -424,6 +444,7 @@ inductive InOp where
   | m
   | x
   | r
+  | l (nsamp npre : Int)
 
 def optOfInt (i : Int) : Option Nat := if i < 0 then none else some i.toNat
 
@@ -440,6 +461,7 @@ def parseInOp : P InOp := do
   | "D" => do let ch ← nat; let n ← nat; pure (.d ch n)
   | "P" => do let ch ← nat; pure (.p ch)
   | "M" => do let _ ← int; pure .m
+  | "L" => do let n ← int; let p ← int; pure (.l n p)
   | "X" => pure .x
   | "R" => pure .r
   | _ => fail s!"bad op {t}"
@@ -453,6 +475,7 @@ structure ImplRes where
   fds : Nat
   delta : List (FKey × Nat)
   map : Option Nat := none     -- Q: pixels of the map the server held when the request arrived
+  lens : Int × Int := (0, 0)   -- record length the server reports
 
 def runOfInts (p r : Int) : Option Run :=
   if p = -1 then none else if p < 0 ∨ r < 0 then some ⟨777777, 777777⟩ else some ⟨p.toNat, r.toNat⟩
@@ -468,17 +491,19 @@ def parseRes (op : InOp) : P ImplRes := do
     | .m, "-" => pure (false, [], none)
     | .x, "-" => pure (false, [], none)
     | .r, "E" => do let e ← bool; pure (e, [], none)
+    | .l .., "E" => do let e ← bool; pure (e, [], none)
     | _, _ => fail s!"bad result {t}" : P (Bool × List Nat × Option Nat))
   kw "S"
   let a ← bool; let p ← bool; let l22 ← bool; let off ← bool; let l3 ← bool
   let base ← int; let pp ← int; let pr ← int
   kw "NW"; let nw ← list nat
   kw "FD"; let fds ← nat
+  kw "LEN"; let ln ← int; let lp ← int
   kw "F"
   let delta ← list (do
     let pid ← nat; let run ← nat; let ch ← nat; let ty ← nat; let n ← nat
     pure ((⟨⟨pid, run⟩, ch, ftOfNat ty⟩ : FKey), n))
-  pure { err, counts, nw, fds, delta, map,
+  pure { err, counts, nw, fds, delta, map, lens := (ln, lp),
          ws := { active := a, paused := p, l22, off, l3,
                  base := if base = -1 then none else if base < 0 then some 777777 else some base.toNat,
                  pat := runOfInts pp pr } }
@@ -492,6 +517,7 @@ def modelOp : InOp → ImplRes → Op
   | .b, res => .pub res.counts
   | .d .., res => .pub res.counts
   | .p ch, _ => .proj ch
+  | .l n p, _ => .lens n p
   | .x, _ => .srcEnd
   | .r, _ => .srcStart
 
@@ -519,6 +545,7 @@ def opTag (op : Op) (err : Bool) : List String :=
     | .invalid, _ => ["invalid-request"]
   | .pub _ => []
   | .proj _ => ["load-projectors"]
+  | .lens .. => if err then ["lengths-refused"] else ["lengths-accepted"]
   | .srcEnd => ["source-ended"]
   | .srcStart => if err then ["source-start-refused"] else ["source-restarted"]
 
@@ -541,10 +568,10 @@ def oracleAll (o : OSt) (implFiles : Files) : List (InOp × ImplRes) → Nat →
     | .ok o' => oracleAll o' files' rest (k + 1)
 
 def runLine (ts : List String) : Verdict :=
-  let p : P (List Bool × List Run × List Int × List Nat × List (InOp × ImplRes)) := do
+  let p : P (List Bool × List Run × List Int × List Nat × (Int × Int) × List (InOp × ImplRes)) := do
     P.kw "nch"; let nch ← P.nat
-    P.kw "npre"; let _ ← P.nat
-    P.kw "nsamp"; let _ ← P.nat
+    P.kw "npre"; let npre ← P.int
+    P.kw "nsamp"; let nsamp ← P.int
     P.kw "proj"; let proj ← P.rep P.bool nch
     P.kw "nums"; let nums ← P.rep P.int nch
     P.kw "pre"; let pre ← P.list (do let a ← P.nat; let b ← P.nat; pure (⟨a, b⟩ : Run))
@@ -559,13 +586,13 @@ def runLine (ts : List String) : Verdict :=
     let n ← P.nat
     if n != ops.length then P.fail "op count mismatch"
     let rs ← parseAll ops
-    pure (proj, pre, nums, blocked, rs)
+    pure (proj, pre, nums, blocked, (nsamp, npre), rs)
   match P.run p ts with
   | .error e =>
     if e.startsWith "CRASH" then .viol s!"C06:crash the implementation crashed or hung: {e}" else .bad e
-  | .ok (proj, pre, nums, blocked, rs) =>
+  | .ok (proj, pre, nums, blocked, lens, rs) =>
     -- 1. the oracle over the whole history (implementation's observations only)
-    match oracleAll (OSt.init proj pre) [] rs 0 with
+    match oracleAll (OSt.init proj pre lens) [] rs 0 with
     | some m => .viol m
     | none =>
     -- 2. the model must reproduce every observation
@@ -583,6 +610,7 @@ def runLine (ts : List String) : Verdict :=
         let mo := obs s'
         if sm.2 != res.err then .diff s!"error flag differs at op {k}: model {sm.2} impl {res.err}"
         else if mo.ws != res.ws then .diff s!"reported writing state differs at op {k}"
+        else if s'.lens != res.lens then .diff s!"reported record lengths differ at op {k}: model {s'.lens} impl {res.lens}"
         else if mo.nw != res.nw then .diff s!"written counters differ at op {k}: model {mo.nw} impl {res.nw}"
         else if !((keysOf mo.files ++ keysOf files').all fun key => stored mo.files key == stored files' key) then
           .diff s!"stored record counts differ at op {k}"
@@ -598,6 +626,6 @@ def runLine (ts : List String) : Verdict :=
                     ++ (if !res.ws.active then ["withheld-inactive"] else [])
             | _ => opTag op res.err
           go s' files' rest' (k + 1) (tags ++ t)
-    go (St.init proj pre nums blocked) [] rs 0 []
+    go (St.init proj pre nums blocked lens) [] rs 0 []
 
 end DastardV.C06
